@@ -23,7 +23,9 @@ def gen_case(rng, idx):
     if idx % 6 == 4:
         prog, feats, losses, tasks, shared = ajlib.gen_mtl_alias_pair(rng)
     else:
-        prog, feats, losses, tasks, shared = ajlib.gen_mtl(rng, alias=True if idx % 3 == 1 else None)
+        # every fifth program has 5-7 tasks, so that chunk sizes 3 and 4 leave a ragged last chunk
+        prog, feats, losses, tasks, shared = ajlib.gen_mtl(rng, alias=True if idx % 3 == 1 else None,
+                                                           nt=(rng.choice([5, 6, 7]) if idx % 5 == 0 else None))
     t = len(losses)
     leaves = [x for x in range(prog.n()) if prog.is_leaf[x] and prog.req[x]]
     calls = []
@@ -31,7 +33,7 @@ def gen_case(rng, idx):
     # retain_graph=False (C13's side condition), so such programs are driven with retain_graph=True
     nested = ajlib.entangled(prog, feats)
     variants = [(None, None), (tasks, shared), (tasks, None), (None, shared), (tasks, [])]   # [] = heads-only update
-    for k in [None, 1, 2, t + 1]:
+    for k in [None, 1, 2, t + 1] + ([3] if t >= 4 else []) + ([4] if t >= 5 else []):
         tp, sp = rng.choice(variants)
         if tp is not None and rng.random() < 0.3:
             tp = [list(reversed(ps)) for ps in tp]
